@@ -6,6 +6,7 @@ mod c04;
 mod c05;
 mod c06;
 mod c07;
+mod c09;
 mod c10;
 mod c11;
 mod c12;
@@ -43,6 +44,9 @@ fn main() {
         "c13-grammar" => c13::grammar(rest),
         "c13-local" => c13::local(rest),
         "c16-probe" => c16::run(rest),
+        "c09-replay" => c09::replay(rest),
+        "c09-stress" => c09::stress(rest),
+        "c09-request" => c09::request(rest),
         "c11-replay" => c11::replay(rest),
         "c11-record" => c11::record(rest),
         other => Err(anyhow::anyhow!("unknown subcommand {other}")),
